@@ -328,6 +328,9 @@ func sLen(sort, s string) string {
 	if s == sEmpty(sort) {
 		return "0"
 	}
+	if d, ok := termDefs[s]; ok && strings.HasPrefix(d, "("+seqFn(sort, "sl")+" ") {
+		s = d
+	}
 	// len(sl(x,a,b)) = b-a (the slice bounds are established where the slice is built)
 	if args, ok := splitCtor(s, seqFn(sort, "sl")); ok && len(args) == 3 {
 		return tSub(args[2], args[1])
@@ -335,7 +338,14 @@ func sLen(sort, s string) string {
 	return app(seqFn(sort, "len"), s)
 }
 func sIdx(sort, s, i string) string      { return app(seqFn(sort, "idx"), s, i) }
+// termDefs: definitions of named terms (name -> term), so that syntactic
+// simplifications can look through names.
+var termDefs = map[string]string{}
+
 func sSl(sort, s, a, b string) string {
+	if d, ok := termDefs[s]; ok && strings.HasPrefix(d, "("+seqFn(sort, "sl")+" ") {
+		s = d
+	}
 	// sl(sl(x,p,q),a,b) = sl(x,p+a,p+b)
 	if args, ok := splitCtor(s, seqFn(sort, "sl")); ok && len(args) == 3 {
 		return sSl(sort, args[0], tAdd(args[1], a), tAdd(args[1], b))
@@ -388,7 +398,7 @@ func seqPrelude(sort, elem string, quant bool) string {
 	p("(assert (forall ((x %s) (y %s) (a Int) (b Int)) (! (=> (and (<= 0 a) (<= a b) (<= b (%s_len x))) (= (%s_sl (%s_app x y) a b) (%s_sl x a b))) :pattern ((%s_sl (%s_app x y) a b)))))", S, S, S, S, S, S, S, S)
 	p("(assert (forall ((x %s) (y %s) (a Int) (b Int)) (! (=> (and (<= (%s_len x) a) (<= a b) (<= b (+ (%s_len x) (%s_len y)))) (= (%s_sl (%s_app x y) a b) (%s_sl y (- a (%s_len x)) (- b (%s_len x))))) :pattern ((%s_sl (%s_app x y) a b)))))", S, S, S, S, S, S, S, S, S, S, S, S)
 	p("(assert (forall ((x %s) (y %s) (a Int) (b Int)) (! (=> (and (<= 0 a) (<= a (%s_len x)) (<= (%s_len x) b) (<= b (+ (%s_len x) (%s_len y)))) (= (%s_sl (%s_app x y) a b) (%s_app (%s_sl x a (%s_len x)) (%s_sl y 0 (- b (%s_len x)))))) :pattern ((%s_sl (%s_app x y) a b)))))", S, S, S, S, S, S, S, S, S, S, S, S, S, S, S)
-	p("(assert (forall ((s %s) (a Int) (b Int) (c Int) (d Int)) (! (=> (and (<= 0 a) (<= a b) (<= b (%s_len s)) (<= 0 c) (<= c d) (<= d (- b a))) (= (%s_sl (%s_sl s a b) c d) (%s_sl s (+ a c) (+ a d)))) :pattern ((%s_sl (%s_sl s a b) c d)))))", S, S, S, S, S, S, S)
+	// slice-of-slice is applied syntactically (sSl); as a quantified axiom it caused matching loops
 	p("(assert (forall ((s %s) (v %s)) (! (= (%s_len (%s_build s v)) (+ (%s_len s) 1)) :pattern ((%s_build s v)))))", S, elem, S, S, S, S)
 	p("(assert (forall ((s %s) (v %s) (i Int)) (! (= (%s_idx (%s_build s v) i) (ite (= i (%s_len s)) v (%s_idx s i))) :pattern ((%s_idx (%s_build s v) i)))))", S, elem, S, S, S, S, S, S)
 	p("(assert (forall ((s %s) (v %s)) (! (= (%s_build s v) (%s_app s (%s_build %s_empty v))) :pattern ((%s_build s v)))))", S, elem, S, S, S, S, S)
